@@ -172,7 +172,7 @@ func TestC14Edits(t *testing.T) {
 		schema := &jsonapi.Schema{}
 		model := &mSchema{}
 
-		typePool := []string{"a", "b", "ab", "c", "", "a_b", "a-b"}
+		typePool := []string{"a", "b", "ab", "c", "", "a_b", "a-b", "A", "aB"} // names are case-sensitive
 		attrPool := []string{"x", "y", "xy", "r", "", "prix€"}
 		relPool := []string{"r", "s", "rs", "a_b", "x", "", "m²"}
 
